@@ -153,3 +153,45 @@ func VerifH_C06_fingerprint_no_ct() {
 	vr.Assert(len(cb.Extensions) == len(withCT), "the parsed certificate still lists every extension")
 	vr.Cover("done")
 }
+
+// C06 end to end through the real codec: a precertificate (CT poison) and the final
+// certificate (SCT list) issued from the same template parse to the same no-CT
+// fingerprint, different ordinary fingerprints, and every raw field is the
+// corresponding slice of the DER input; fingerprints are the ideal hashes of those
+// slices.
+// verif: covers=done
+func VerifH_C06_precert_final_pair() {
+	c04Stubs()
+	vr.Stub("github.com/zmap/zcrypto/x509.parseSignedCertificateTimestampList", func(out *Certificate, e pkix.Extension) error { return nil })
+	tmpl, pub := c04Template()
+	tmpl.SubjectKeyId = vr.Bytes("ski", 1)
+	tmpl.DNSNames = []string{c04ASCII("dns", 1)}
+	other := pkix.Extension{Id: c06OtherOID, Value: []byte{4, 1, vr.U8("other")}}
+	poison := pkix.Extension{Id: oidExtensionCTPrecertificatePoison, Critical: true, Value: []byte{5, 0}}
+	sct := pkix.Extension{Id: oidExtensionSignedCertificateTimestampList, Value: []byte{4, 3, 0, 1, vr.U8("sct")}}
+	place := vr.Pick(vr.Int("ctPosition", 0, 1))
+	with := func(ct pkix.Extension) []pkix.Extension {
+		if place == 0 {
+			return []pkix.Extension{ct, other}
+		}
+		return []pkix.Extension{other, ct}
+	}
+	pre, fin := *tmpl, *tmpl
+	pre.ExtraExtensions = with(poison)
+	fin.ExtraExtensions = with(sct)
+	cp := c04Issue(&pre, nil, pub)
+	cf := c04Issue(&fin, nil, pub)
+	vr.Assert(bytes.Equal(cp.FingerprintNoCT, cf.FingerprintNoCT), "precertificate and final certificate share the no-CT fingerprint")
+	plain := *tmpl
+	plain.ExtraExtensions = []pkix.Extension{other}
+	c0 := c04Issue(&plain, nil, pub)
+	vr.Assert(bytes.Equal(c0.FingerprintNoCT, cf.FingerprintNoCT), "which is that of the certificate without CT extensions")
+	vr.Assert(cp.IsPrecert && !cf.IsPrecert, "the poison marks the precertificate")
+	for _, c := range []*Certificate{cp, cf} {
+		vr.Assert(bytes.Contains(c.Raw, c.RawTBSCertificate) && bytes.Contains(c.RawTBSCertificate, c.RawSubjectPublicKeyInfo) &&
+			bytes.Contains(c.RawTBSCertificate, c.RawSubject) && bytes.Contains(c.RawTBSCertificate, c.RawIssuer), "raw fields are slices of the input")
+		vr.Assert(bytes.Equal(c.FingerprintSHA256, c06H("sha256", 32, c.Raw)) && bytes.Equal(c.FingerprintSHA1, c06H("sha1", 20, c.Raw)) && bytes.Equal(c.FingerprintMD5, c06H("md5", 16, c.Raw)), "certificate fingerprints hash the whole input")
+		vr.Assert(bytes.Equal(c.SPKIFingerprint, c06H("sha256", 32, c.RawSubjectPublicKeyInfo)) && bytes.Equal(c.TBSCertificateFingerprint, c06H("sha256", 32, c.RawTBSCertificate)), "SPKI and TBS fingerprints hash their slices")
+	}
+	vr.Cover("done")
+}
